@@ -22,6 +22,7 @@ Record async_code := {
   ac_build_exn : pyexn;           (*   ... ConnectionException *)
   ac_handle_by_reply_tid : bool;  (* _handleResponse: getTransaction(reply.transaction_id) *)
   ac_lost_clears : bool;          (* connectionLost: self._connected = False *)
+  ac_lost_clear_first : bool;     (*   ... BEFORE the errback loop *)
   ac_lost_loop : bool;            (* connectionLost: for tid in list(self.transaction): ...errback *)
   ac_lost_exn : pyexn;            (*   ... ConnectionException *)
   ac_unit_default : N }.          (* dataReceived: decode_data(data).get("unit", 0) *)
@@ -42,10 +43,14 @@ Record astate := {
   a_conn : bool;                    (* _connected *)
   a_fired : list (N * outcome);     (* (deferred, how it fired), oldest first *)
   a_sent : list (N * N);            (* (deferred, tid written to the transport), oldest first *)
-  a_lost : list N }.                (* ghost: deferreds whose table slot was overwritten *)
+  a_lost : list N;                  (* ghost: deferreds whose table slot was overwritten *)
+  a_rerr : list N;                  (* deferreds whose ERRBACK calls protocol.execute again *)
+  a_rcb : list N }.                 (* deferreds whose CALLBACK calls protocol.execute again *)
 
 Inductive aop :=
 | Execute                              (* protocol.execute(request) *)
+| ExecuteE                             (* the same; the caller's errback re-issues a (plain) request *)
+| ExecuteC                             (* the same; the caller's callback re-issues a (plain) request *)
 | Segment (frames : list (N * N * N))  (* dataReceived(one segment of whole frames: unit, tid, reply id) *)
 | Lost                                 (* connectionLost *)
 | Made                                 (* connectionMade *)
@@ -87,77 +92,109 @@ Definition next_tid (t : N) : N := N.land (t + ac_tid_inc C) (ac_tid_mask C).
 
 Definition init_state : astate :=
   {| a_tid := ac_tid_init C; a_alloc := 0; a_pending := []; a_conn := ac_init_connected C;
-     a_fired := []; a_sent := []; a_lost := [] |}.
+     a_fired := []; a_sent := []; a_lost := []; a_rerr := []; a_rcb := [] |}.
 
-Definition do_execute (v : variant) (σ : astate) : astate :=
+Definition set_conn (σ : astate) (b : bool) : astate :=
+  {| a_tid := a_tid σ; a_alloc := a_alloc σ; a_pending := a_pending σ; a_conn := b; a_fired := a_fired σ;
+     a_sent := a_sent σ; a_lost := a_lost σ; a_rerr := a_rerr σ; a_rcb := a_rcb σ |}.
+
+Definition register (σ : astate) (d : N) (re rc : bool) : astate :=
+  {| a_tid := a_tid σ; a_alloc := a_alloc σ; a_pending := a_pending σ; a_conn := a_conn σ; a_fired := a_fired σ;
+     a_sent := a_sent σ; a_lost := a_lost σ;
+     a_rerr := if re then a_rerr σ ++ [d] else a_rerr σ;
+     a_rcb := if rc then a_rcb σ ++ [d] else a_rcb σ |}.
+
+(* pending entry removed, its deferred fired *)
+Definition move_fired (σ : astate) (p' : list (N * N)) (d : N) (o : outcome) : astate :=
+  {| a_tid := a_tid σ; a_alloc := a_alloc σ; a_pending := p'; a_conn := a_conn σ;
+     a_fired := a_fired σ ++ [(d, o)]; a_sent := a_sent σ; a_lost := a_lost σ;
+     a_rerr := a_rerr σ; a_rcb := a_rcb σ |}.
+
+(* execute() while not connected: tid taken and written, the deferred fails at once *)
+Definition issue_failed (σ : astate) : astate :=
   let t := next_tid (a_tid σ) in
   let d := a_alloc σ + 1 in
-  if ac_build_guard C && negb (a_conn σ)
-  then {| a_tid := t; a_alloc := d; a_pending := a_pending σ; a_conn := a_conn σ;
-          a_fired := a_fired σ ++ [(d, OErr (ac_build_exn C))];
-          a_sent := a_sent σ ++ [(d, t)]; a_lost := a_lost σ |}
-  else let '(p', o) := add_tx v (a_pending σ) t d in
-       {| a_tid := t; a_alloc := d; a_pending := p'; a_conn := a_conn σ; a_fired := a_fired σ;
-          a_sent := a_sent σ ++ [(d, t)];
-          a_lost := match o with Some x => a_lost σ ++ [x] | None => a_lost σ end |}.
+  {| a_tid := t; a_alloc := d; a_pending := a_pending σ; a_conn := a_conn σ;
+     a_fired := a_fired σ ++ [(d, OErr (ac_build_exn C))];
+     a_sent := a_sent σ ++ [(d, t)]; a_lost := a_lost σ; a_rerr := a_rerr σ; a_rcb := a_rcb σ |}.
+
+(* execute() while connected: tid taken and written, the deferred filed under it *)
+Definition issue_pending (v : variant) (σ : astate) : astate :=
+  let t := next_tid (a_tid σ) in
+  let d := a_alloc σ + 1 in
+  let '(p', o) := add_tx v (a_pending σ) t d in
+  {| a_tid := t; a_alloc := d; a_pending := p'; a_conn := a_conn σ; a_fired := a_fired σ;
+     a_sent := a_sent σ ++ [(d, t)];
+     a_lost := match o with Some x => a_lost σ ++ [x] | None => a_lost σ end;
+     a_rerr := a_rerr σ; a_rcb := a_rcb σ |}.
+
+Definition guard_fails (σ : astate) : bool := ac_build_guard C && negb (a_conn σ).
+
+(* a plain execute(): the caller's callback/errback do not touch the protocol *)
+Definition do_execute (v : variant) (σ : astate) : astate :=
+  if guard_fails σ then issue_failed σ else issue_pending v σ.
+
+Definition memN (d : N) (l : list N) : bool := existsb (N.eqb d) l.
+
+(* the user code attached to deferred d runs after it fired with outcome o *)
+Definition react (v : variant) (σ : astate) (d : N) (o : outcome) : astate :=
+  if match o with OErr _ => memN d (a_rerr σ) | OCb _ _ => memN d (a_rcb σ) end
+  then do_execute v σ else σ.
+
+(* execute() by a caller whose errback (re) / callback (rc) re-issues a plain request *)
+Definition do_execute_k (v : variant) (σ : astate) (re rc : bool) : astate :=
+  let d := a_alloc σ + 1 in
+  let σ1 := register σ d re rc in
+  if guard_fails σ1 then react v (issue_failed σ1) d (OErr (ac_build_exn C)) else issue_pending v σ1.
 
 (* _handleResponse for one decoded frame *)
-Definition handle (v : variant) (pf : list (N * N) * list (N * outcome)) (tid rid : N)
-  : list (N * N) * list (N * outcome) :=
-  let '(p, f) := pf in
-  match get_tx v p (if ac_handle_by_reply_tid C then tid else 0) with
-  | Some (d, p') => (p', f ++ [(d, OCb tid rid)])
-  | None => (p, f)
+Definition handle (v : variant) (σ : astate) (tid rid : N) : astate :=
+  match get_tx v (a_pending σ) (if ac_handle_by_reply_tid C then tid else 0) with
+  | Some (d, p') => react v (move_fired σ p' d (OCb tid rid)) d (OCb tid rid)
+  | None => σ
   end.
 
 Definition unit_ok (u0 u : N) : bool := N.eqb u0 0 || N.eqb u0 255 || N.eqb u u0.
 
 (* processIncomingPacket over the whole frames of one segment: a frame for another unit than
-   the first frame's resets the buffer, i.e. drops everything behind it *)
-Fixpoint seg_loop (v : variant) (u0 : N) (frames : list (N * N * N))
-                  (pf : list (N * N) * list (N * outcome)) : list (N * N) * list (N * outcome) :=
+   the first frame's is skipped (advanceFrame), the frames behind it are still processed *)
+Fixpoint seg_loop (v : variant) (u0 : N) (frames : list (N * N * N)) (σ : astate) : astate :=
   match frames with
-  | [] => pf
-  | (u, tid, rid) :: r => if unit_ok u0 u then seg_loop v u0 r (handle v pf tid rid) else pf
+  | [] => σ
+  | (u, tid, rid) :: r => seg_loop v u0 r (if unit_ok u0 u then handle v σ tid rid else σ)
   end.
 
 Definition do_segment (v : variant) (σ : astate) (frames : list (N * N * N)) : astate :=
   let u0 := match frames with (u, _, _) :: _ => u | [] => ac_unit_default C end in
-  let '(p', f') := seg_loop v u0 frames (a_pending σ, a_fired σ) in
-  {| a_tid := a_tid σ; a_alloc := a_alloc σ; a_pending := p'; a_conn := a_conn σ; a_fired := f';
-     a_sent := a_sent σ; a_lost := a_lost σ |}.
+  seg_loop v u0 frames σ.
 
 (* for tid in list(self.transaction): self.transaction.getTransaction(tid).errback(...) *)
-Fixpoint lost_loop (v : variant) (keys : list N) (pf : list (N * N) * list (N * outcome))
-  : list (N * N) * list (N * outcome) :=
+Fixpoint lost_loop (v : variant) (keys : list N) (σ : astate) : astate :=
   match keys with
-  | [] => pf
-  | k :: r => match get_tx v (fst pf) k with
-              | Some (d, p') => lost_loop v r (p', snd pf ++ [(d, OErr (ac_lost_exn C))])
-              | None => pf           (* None.errback: AttributeError escapes, loop abandoned *)
+  | [] => σ
+  | k :: r => match get_tx v (a_pending σ) k with
+              | Some (d, p') => lost_loop v r (react v (move_fired σ p' d (OErr (ac_lost_exn C))) d (OErr (ac_lost_exn C)))
+              | None => σ            (* None.errback: AttributeError escapes, loop abandoned *)
               end
   end.
 
 Definition do_lost (v : variant) (σ : astate) : astate :=
-  let '(p', f') := if ac_lost_loop C
-                   then lost_loop v (map fst (a_pending σ)) (a_pending σ, a_fired σ)
-                   else (a_pending σ, a_fired σ) in
-  {| a_tid := a_tid σ; a_alloc := a_alloc σ; a_pending := p';
-     a_conn := if ac_lost_clears C then false else a_conn σ;
-     a_fired := f'; a_sent := a_sent σ; a_lost := a_lost σ |}.
+  let σ0 := if ac_lost_clears C && ac_lost_clear_first C then set_conn σ false else σ in
+  let σ1 := if ac_lost_loop C then lost_loop v (map fst (a_pending σ0)) σ0 else σ0 in
+  if ac_lost_clears C && negb (ac_lost_clear_first C) then set_conn σ1 false else σ1.
 
-Definition do_made (σ : astate) : astate :=
-  {| a_tid := a_tid σ; a_alloc := a_alloc σ; a_pending := a_pending σ;
-     a_conn := if ac_made_connected C then true else a_conn σ;
-     a_fired := a_fired σ; a_sent := a_sent σ; a_lost := a_lost σ |}.
+Definition do_made (σ : astate) : astate := if ac_made_connected C then set_conn σ true else σ.
 
 Definition do_skip (σ : astate) (n : N) : astate :=
   {| a_tid := N.iter n next_tid (a_tid σ); a_alloc := a_alloc σ + n; a_pending := a_pending σ;
-     a_conn := a_conn σ; a_fired := a_fired σ; a_sent := a_sent σ; a_lost := a_lost σ |}.
+     a_conn := a_conn σ; a_fired := a_fired σ; a_sent := a_sent σ; a_lost := a_lost σ;
+     a_rerr := a_rerr σ; a_rcb := a_rcb σ |}.
 
 Definition astep (v : variant) (σ : astate) (o : aop) : astate :=
   match o with
   | Execute => do_execute v σ
+  | ExecuteE => do_execute_k v σ true false
+  | ExecuteC => do_execute_k v σ false true
   | Segment fr => do_segment v σ fr
   | Lost => do_lost v σ
   | Made => do_made σ
@@ -176,6 +213,10 @@ Fixpoint safe_run (v : variant) (ops : list aop) (σ : astate) : bool :=
   | [] => true
   | o :: r => (match o with Execute => exec_safe σ | _ => true end) && safe_run v r (astep v σ o)
   end.
+
+(* histories whose callbacks / errbacks never call back into the protocol *)
+Definition plain (ops : list aop) : bool :=
+  forallb (fun o => match o with ExecuteE | ExecuteC => false | _ => true end) ops.
 
 End WithCode.
 
@@ -198,4 +239,5 @@ Definition good_code (C : async_code) : Prop :=
   ac_tid_inc C = 1 /\ ac_tid_mask C = 65535 /\ ac_tid_init C < 65536 /\
   ac_init_connected C = false /\ ac_made_connected C = true /\
   ac_build_guard C = true /\ ac_build_exn C = ConnectionExc /\ ac_handle_by_reply_tid C = true /\
-  ac_lost_clears C = true /\ ac_lost_loop C = true /\ ac_lost_exn C = ConnectionExc.
+  ac_lost_clears C = true /\ ac_lost_loop C = true /\ ac_lost_exn C = ConnectionExc /\
+  ac_lost_clear_first C = true.
